@@ -40,6 +40,8 @@ func isBatchWrite(c *ssa.CallCommon) bool {
 
 func checkC14(c *Ctx) {
 	l := c.L
+	checkVersionProbeRemoved(c, "PASS-version-probe-removed")
+	checkRootRecordEmpty(c, "TABLE-root-record")
 	c.rule("DOM-overwrite-check", "overwrite check dominates every write of SaveVersion", 4)
 	c.rule("ORDER-load-after-checks", "LoadVersion mutates the tree only after its checks", 2)
 	c.rule("FLOW-commit-number", "the committed number is WorkingVersion()", 6)
@@ -611,4 +613,82 @@ func checkLastSavedIsFinal(c *Ctx) {
 	if n < 2 {
 		c.anchorMissing(R, "fewer than 2 lastSaved = clone() assignments")
 	}
+}
+
+// checkRootRecordEmpty (shared by C14, C13, C01): the stored root record of a
+// version has three forms — empty (the version is an empty tree), a reference
+// to an earlier root, or the root node itself.  GetRoot must decide "empty ⇒
+// (nil root, no error)" before it inspects or returns anything else: without
+// it the record of an empty version is taken for a root node stored under
+// (version,1) and every empty version becomes unloadable.
+func checkRootRecordEmpty(c *Ctx, rule string) {
+	l := c.L
+	c.rule(rule, "GetRoot decides the empty root record (empty tree) before the other forms", 2)
+	gr := l.Func("", "*nodeDB.GetRoot")
+	if gr == nil {
+		c.anchorMissing(rule, "nodeDB.GetRoot")
+		return
+	}
+	var v ssa.Value
+	var at ssa.Instruction
+	allInstrs(gr, func(in ssa.Instruction) {
+		cc := callCommon(in)
+		if v != nil || cc == nil || !cc.IsInvoke() || cc.Method.Name() != "Get" || len(cc.Args) == 0 {
+			return
+		}
+		r := roleOf(l, cc.Args[0], "ndb", 0)
+		if strings.Contains(r, "nodeKeyFormat") && strings.Contains(r, "GetRootKey(arg0)") {
+			if e := extractOf(in.(ssa.Value), 0); e != nil {
+				v, at = e, in
+			}
+		}
+	})
+	if v == nil {
+		c.anchorMissing(rule, "root record Get in GetRoot")
+		return
+	}
+	gs := nonEmptyGuards(gr, func(x ssa.Value) bool { return x == v })
+	if len(gs) == 0 {
+		c.bad(rule, "GetRoot: empty root record ⇒ empty tree", l.ipos(at), "no emptiness test of the stored root record: the record of an empty version (an empty value) is taken for a root node stored under (version,1); the node read then fails and the empty version cannot be loaded")
+		c.bad(rule, "GetRoot: other forms only for a non-empty record", l.ipos(at), "no emptiness test of the stored root record")
+		return
+	}
+	good := true
+	for _, g := range gs {
+		searchFrom([]point{blockStart(g.iff.Block().Succs[1-g.pass])}, func(in ssa.Instruction) bool {
+			if r, ok := in.(*ssa.Return); ok {
+				if !isNilConst(stripTrivial(retVal(r, 0))) || !isNilConst(stripTrivial(retVal(r, 1))) {
+					good = false
+				}
+				return true
+			}
+			return false
+		})
+	}
+	c.decide(rule, "GetRoot: empty root record ⇒ empty tree", l.ipos(gs[0].iff), good, "the empty edge returns (nil, nil)", "the empty root record does not lead to (nil root, no error): an empty version is reported as missing or as a root node")
+	// every other use of the record, and every success return that is reachable with the record present, lies behind the test
+	okUses := true
+	var bad ssa.Instruction
+	for _, r := range refs(v) {
+		in, isIn := r.(ssa.Instruction)
+		if !isIn {
+			continue
+		}
+		if call, isCall := r.(*ssa.Call); isCall {
+			if bi, isB := call.Call.Value.(*ssa.Builtin); isB && bi.Name() == "len" {
+				continue
+			}
+		}
+		if bo, isBo := r.(*ssa.BinOp); isBo && (isNilConst(bo.X) || isNilConst(bo.Y)) {
+			continue // the nil test (entry missing) comes first
+		}
+		if !guardsEffect(gs, in) {
+			okUses, bad = false, in
+		}
+	}
+	pos := l.ipos(at)
+	if bad != nil {
+		pos = l.ipos(bad)
+	}
+	c.decide(rule, "GetRoot: other forms only for a non-empty record", pos, okUses, "reference test and key extraction are behind the non-empty edge", "the stored root record is inspected as a reference / node before it was found non-empty")
 }
